@@ -1157,7 +1157,7 @@ func stressRound(seed int64, n, k int, refHash *string) stressTotals {
 func (s *stepper) stress(st replay.Step) (replay.Obs, error) {
 	n := replay.Int(st.Args, "n")
 	k := replay.Int(st.Args, "fails")
-	rounds, budget := 3, 90*time.Second
+	rounds, budget := 2, 60*time.Second
 	if os.Getenv("VERIF_TIER") == "thorough" {
 		rounds, budget = 16, 300*time.Second
 	}
